@@ -60,20 +60,22 @@ Record alive_inv (st : rstate) : Prop := {
 
 Definition accpaths (acc : list vitem) : list bytes := map vpath acc.
 
-Record GInv (st : rstate) (acc : list vitem) : Prop := {
+Record GBase (st : rstate) (acc : list vitem) : Prop := {
   g_step : step TAll b0 f0 (r_fs st);
   g_R : R (r_vstk st);
   g_vinv : Inv (map ce (r_vstk st)) (map citem_of acc);
   g_acc : Forall (fun it => ok_path (vpath it) = true /\ clean_path (vpath it)) acc;
   g_seen : forall q, In q (r_seen st) -> In q (accpaths acc);
   g_pipes : forall id pp, In (id, pp) (r_pipes st) -> In (pp_path pp) (accpaths acc) /\ pipe_ok (r_fs st) pp;
-  g_tmps : forall t, In t (r_tmps st) -> tmpname t;
-  g_alive : live st = true -> alive_inv st
+  g_tmps : forall t, In t (r_tmps st) -> tmpname t
 }.
 
-Lemma g_wf st acc : GInv st acc -> wf (r_fs st).
+Definition GInv (st : rstate) (acc : list vitem) : Prop :=
+  GBase st acc /\ (live st = true -> alive_inv st).
+
+Lemma g_wf st acc : GBase st acc -> wf (r_fs st).
 Proof. intros G. apply (st_wf _ _ _ _ _ (g_step st acc G)). Qed.
-Lemma g_next st acc : GInv st acc -> b0 <= f_next (r_fs st).
+Lemma g_next st acc : GBase st acc -> b0 <= f_next (r_fs st).
 Proof. intros G. pose proof (st_next _ _ _ _ _ (g_step st acc G)). unfold b0. lia. Qed.
 
 (* ---- transport along a step that touches no entry ---- *)
@@ -109,13 +111,12 @@ Proof.
 Qed.
 
 
-Lemma GInv_quiet st st' acc b :
-  GInv st acc -> b0 <= b -> step TNone b (r_fs st) (r_fs st') -> same_core st st' ->
-  (live st' = true -> live st = true) ->
+Lemma GBase_quiet st st' acc b :
+  GBase st acc -> b0 <= b -> step TNone b (r_fs st) (r_fs st') -> same_core st st' ->
   (forall id pp, In (id, pp) (r_pipes st') -> In (pp_path pp) (accpaths acc) /\ pipe_ok (r_fs st') pp) ->
-  GInv st' acc.
+  GBase st' acc.
 Proof.
-  intros G Hb S C Hl Hp. pose proof C as (E1 & E2 & E3). constructor.
+  intros G Hb S C Hp. pose proof C as (E1 & E2 & E3). constructor.
   - apply (glob_step TNone b (r_fs st)); auto. apply G.
   - rewrite E1. apply G.
   - rewrite E1. apply G.
@@ -123,7 +124,17 @@ Proof.
   - intros q Hq. rewrite E2 in Hq. apply (g_seen st acc G q Hq).
   - exact Hp.
   - intros t Ht. rewrite E3 in Ht. apply (g_tmps st acc G t Ht).
-  - intros L. apply (alive_quiet st st' b (g_wf st acc G) C S). apply (g_alive st acc G (Hl L)).
+Qed.
+
+Lemma GInv_quiet st st' acc b :
+  GInv st acc -> b0 <= b -> step TNone b (r_fs st) (r_fs st') -> same_core st st' ->
+  (live st' = true -> live st = true) ->
+  (forall id pp, In (id, pp) (r_pipes st') -> In (pp_path pp) (accpaths acc) /\ pipe_ok (r_fs st') pp) ->
+  GInv st' acc.
+Proof.
+  intros [G A] Hb S C Hl Hp. split.
+  - apply (GBase_quiet st st' acc b); auto.
+  - intros L. apply (alive_quiet st st' b (g_wf st acc G) C S). apply (A (Hl L)).
 Qed.
 
 Lemma live_set_out st o : o <> Running -> live (set_out st o) = false.
@@ -135,10 +146,10 @@ Proof. intros. apply step_refl; auto. Qed.
 Lemma GInv_stop st acc o : GInv st acc -> o <> Running -> GInv (set_out st o) acc.
 Proof.
   intros G Ho. apply (GInv_quiet st (set_out st o) acc b0 G); try (unfold b0; lia).
-  - simpl. apply step_same; [apply (g_wf st acc G)|apply (g_next st acc G)].
+  - simpl. apply step_same; [apply (g_wf st acc (proj1 G))|apply (g_next st acc (proj1 G))].
   - repeat split.
   - rewrite (live_set_out st o Ho). discriminate.
-  - simpl. apply G.
+  - simpl. apply (proj1 G).
 Qed.
 
 Lemma spend_core st st1 : spend st = Some st1 ->
@@ -153,8 +164,8 @@ Lemma GInv_spend st st1 acc : GInv st acc -> spend st = Some st1 -> GInv st1 acc
 Proof.
   intros G H. destruct (spend_core st st1 H) as (E & C & L & P & _).
   apply (GInv_quiet st st1 acc b0 G); try (unfold b0; lia); auto.
-  - rewrite E. apply step_same; [apply (g_wf st acc G)|apply (g_next st acc G)].
-  - rewrite P, E. apply G.
+  - rewrite E. apply step_same; [apply (g_wf st acc (proj1 G))|apply (g_next st acc (proj1 G))].
+  - rewrite P, E. apply (proj1 G).
 Qed.
 
 Lemma alookup_In {A} k (l : list (N * A)) v : alookup k l = Some v -> In (k, v) l.
@@ -186,8 +197,8 @@ Proof.
   pose proof (GInv_spend st st1 acc G Es) as G1.
   destruct (spend_core st st1 Es) as (Ef & _ & _ & Ep & _).
   assert (Hin : In (id, pp) (r_pipes st1)) by (rewrite Ep; apply alookup_In; auto).
-  destruct (g_pipes st1 acc G1 id pp Hin) as [Hacc Hpo].
-  pose proof (g_wf st1 acc G1) as W1. pose proof (g_next st1 acc G1) as Hb1.
+  destruct (g_pipes st1 acc (proj1 G1) id pp Hin) as [Hacc Hpo].
+  pose proof (g_wf st1 acc (proj1 G1)) as W1. pose proof (g_next st1 acc (proj1 G1)) as Hb1.
   destruct (pipe_path_split _ pp Hpo) as [Hrel Ecs].
   set (pre := removelast (comps (pp_path pp))) in *. set (n := last (comps (pp_path pp)) []) in *.
   assert (Hc : c_cwd c = D) by reflexivity.
@@ -204,7 +215,7 @@ Proof.
       * simpl. intros id' pp' Hin'. apply aset_In in Hin'. destruct Hin' as [E|Hin'].
         -- inversion E; subst. split; auto. split; [exact Hok|]. split; [exact Hcl|]. split; [exact Hsf|]. split; [exact Hfr|].
            simpl. intros i' Hi'. apply Hfd. exact Hi'.
-        -- apply (g_pipes st1 acc G1 id' pp' Hin').
+        -- apply (g_pipes st1 acc (proj1 G1) id' pp' Hin').
     + assert (S1 : step TNone b0 (r_fs st1)
                  (fst (if has_bits (st_mode (pp_stat pp)) ModeSetuid || has_bits (st_mode (pp_stat pp)) ModeSetgid
                        then sys_chmod c (r_fs st1) (pp_path pp) (unix_perm (st_mode (pp_stat pp))) else (r_fs st1, ROk)))).
@@ -229,7 +240,7 @@ Proof.
       apply (GInv_quiet st1 _ acc b0 G1); try (unfold b0; lia); simpl; auto.
       * repeat split.
       * intros id' pp' Hin'. apply filter_In in Hin'. destruct Hin' as [Hin' _].
-        destruct (g_pipes st1 acc G1 id' pp' Hin') as [A B]. split; auto.
+        destruct (g_pipes st1 acc (proj1 G1) id' pp' Hin') as [A B]. split; auto.
         apply (quiet_pipe_ok b0 (r_fs st1) f2 pp' W1 S12 B).
   - (* a chunk *)
     assert (X : exists i, (match pp_fd pp with Some i => (r_fs st1, RFd i) | None => sys_open_wronly c (r_fs st1) (pp_path pp) false 0 end)
@@ -260,12 +271,93 @@ Proof.
            split; [exact A1|]. split; [exact A2|]. split; [exact A3|]. split; [exact A4|].
            simpl. intros i' Hi'. inversion Hi'; subst i'. split; auto.
            pose proof (st_next _ _ _ _ _ S). lia.
-        -- destruct (g_pipes st1 acc G1 id' pp' Hin') as [A B]. split; auto.
+        -- destruct (g_pipes st1 acc (proj1 G1) id' pp' Hin') as [A B]. split; auto.
            apply (quiet_pipe_ok b0 (r_fs st1) f2 pp' W1 S B).
     + destruct r; try (exfalso; eapply Hr; reflexivity);
         (apply GInv_stop; [|discriminate]);
         (apply (GInv_quiet st1 _ acc b0 G1); try (unfold b0; lia); simpl; auto;
-         [apply step_same; auto|repeat split|apply G1]).
+         [apply step_same; auto|repeat split|apply (proj1 G1)]).
+Qed.
+
+
+(* ---------------- DiskWriter.Wait: mtimes of the directories the transfer made ---------------- *)
+Lemma wait_entry_step b g0 f p i n t :
+  wf g0 -> step TNone b g0 f -> In (p, i, n) (tree_below 64 g0 D []) -> is_dir g0 i = true ->
+  step TNone b f (fst (sys_utimens c f p t)).
+Proof.
+  intros Wg S Hin Hdi.
+  destruct (tree_below_spec D g0 Wg 64 D [] (reach_refl D g0) (or_introl eq_refl) p i n Hin)
+    as (cs & Hne & Hok & Hp & Hw & Hg).
+  simpl in Hp.
+  assert (Wf : wf f) by (apply (st_wf _ _ _ _ _ S)).
+  assert (Hb : b <= f_next f) by (pose proof (st_base _ _ _ _ _ S); pose proof (st_next _ _ _ _ _ S); lia).
+  assert (Hwf : rwalk f D cs = Some i) by (rewrite (quiet_rwalk D b g0 f cs Wg S); exact Hw).
+  assert (Ri : reach g0 i) by (apply (rwalk_reach D g0 cs D i); [constructor|auto]).
+  assert (Hdf : is_dir f i = true) by (rewrite (is_dir_step D TNone b g0 f i S (reach_lt D g0 i Wg Ri)); exact Hdi).
+  assert (Hkc : okc cs).
+  { apply okname_forall in Hok. destruct Hok. repeat split; auto. }
+  destruct (exists_last Hne) as (pre & nm & Ecs). subst cs.
+  assert (Hrel : relpath p (pre ++ [nm])) by (rewrite Hp; apply relpath_joinc; auto).
+  apply (sys_utimens_step D TNone b c f p pre nm Wf Hb eq_refl Hrel).
+  - pose proof (rwalk_prefix_safe f (pre ++ [nm]) D i Hwf) as H. rewrite removelast_last in H. exact H.
+  - intros dd i' Hw' Hb'. right. apply rwalk_snoc in Hwf.
+    destruct Hwf as (d & H1 & H2 & _). rewrite Hw' in H1. inversion H1; subst d. rewrite Hb' in H2. inversion H2; subst.
+    exact Hdf.
+Qed.
+
+Lemma wait_pass_quiet st : wf (r_fs st) ->
+  step TNone (f_next (r_fs st)) (r_fs st) (wait_pass c D st).
+Proof.
+  intros Wg. unfold wait_pass. set (g0 := r_fs st). set (b := f_next g0).
+  assert (G : forall l, (forall e, In e l -> In e (tree_below 64 g0 D [])) ->
+          forall f, step TNone b g0 f ->
+          step TNone b g0 (fold_left (fun f (e : bytes * N * inode) =>
+               match e with
+               | (p, _, {| i_kind := KDir _ _ |}) =>
+                 match blookup p (r_dirtimes st) with
+                 | Some t => fst (sys_utimens c f p t)
+                 | None => f
+                 end
+               | _ => f
+               end) l f)).
+  { induction l as [|[[p i] n] l IH]; intros Hl f S; [exact S|].
+    simpl. apply IH; [intros e He; apply Hl; right; auto|].
+    destruct n as [k m]. destruct k; auto.
+    destruct (blookup p (r_dirtimes st)) as [t|]; auto.
+    apply (step_trans D TNone b g0 f _ S).
+    apply (wait_entry_step b g0 f p i {| i_kind := KDir parent ents; i_meta := m |} t Wg S).
+    - apply Hl. left. reflexivity.
+    - destruct (tree_below_spec D g0 Wg 64 D [] (reach_refl D g0) (or_introl eq_refl) p i _ (Hl _ (or_introl eq_refl)))
+        as (cs & _ & _ & _ & _ & Hg).
+      unfold is_dir, dir_of. rewrite Hg. reflexivity. }
+  apply G; auto. apply step_refl; auto. unfold b. lia.
+Qed.
+
+Lemma live_set_dead st idx : live (set_dead st idx) = false.
+Proof. unfold live, is_dead. simpl. apply andb_false_r. Qed.
+
+Lemma maybe_wait_inv idx st acc : GInv st acc -> GInv (maybe_wait c dl idx st) acc.
+Proof.
+  intros G. unfold maybe_wait.
+  destruct ((running st || match r_out st with Drained _ => true | _ => false end) && negb (is_dead st)); [|exact G].
+  destruct (r_closed st && negb (r_waited st)); [|exact G].
+  pose proof (g_wf st acc (proj1 G)) as Wg. pose proof (g_next st acc (proj1 G)) as Hb.
+  destruct (r_asyncerr st).
+  - apply (GInv_quiet st _ acc b0 G); try (unfold b0; lia); simpl.
+    + apply step_same; auto.
+    + repeat split.
+    + rewrite live_set_dead. discriminate.
+    + apply (proj1 G).
+  - destruct (is_nil (r_pipes st)); [|exact G].
+    destruct (spend st) as [st1|] eqn:Es; [|apply GInv_stop; [auto|discriminate]].
+    pose proof (GInv_spend st st1 acc G Es) as G1.
+    pose proof (g_wf st1 acc (proj1 G1)) as W1. pose proof (g_next st1 acc (proj1 G1)) as Hb1.
+    assert (S : step TNone (f_next (r_fs st1)) (r_fs st1) (if dl then r_fs st1 else wait_pass c (c_cwd c) st1)).
+    { destruct dl; [apply step_same; auto; lia|]. apply wait_pass_quiet. exact W1. }
+    apply (GInv_quiet st1 _ acc (f_next (r_fs st1)) G1); auto; simpl; auto.
+    + repeat split.
+    + intros id pp Hin. destruct (g_pipes st1 acc (proj1 G1) id pp Hin) as [A B]. split; auto.
+      apply (quiet_pipe_ok (f_next (r_fs st1)) (r_fs st1) _ pp W1 S B).
 Qed.
 
 End Recv.
